@@ -290,6 +290,27 @@ pub fn configs(n_links: usize, tag: &str) -> Vec<Config> {
         write_link(&dir, "t", t, &world::sign_link(lt, &[t]));
         out.push(Config { name: "xiii:match-two-algorithms-one-agrees".into(), layout: world::sign_layout(lay, &[owner]), owners: world::owner_map(&[owner]), dir, ambiguous: false });
     }
+    // (xiv) file names that resemble the proper one: the functionary's link under its proper name,
+    // and other validly signed links of the same functionary under the same name in another case
+    // (key-id prefix in upper case, step name in upper case, extension in upper case). Only the
+    // proper file is evidence; which look-alike is enumerated first must not matter.
+    if n_links == 2 {
+        let dir = util::fresh_dir(&format!("c13-{tag}"));
+        let k = f.iter().copied().find(|k| k.prefix().chars().any(|c| c.is_ascii_alphabetic())).unwrap_or(f[0]);
+        let lay = world::layout(vec![world::step("s", 1, &[k])], vec![], &[k], world::far_future());
+        let mk = |n: u8| world::block_text(&world::sign_link(world::link("s", world::arts(&[]), world::arts(&[("a", n)])), &[k]));
+        let p = k.prefix();
+        world::write(&dir, &format!("s.{p}.link"), &mk(1));
+        world::write(&dir, &format!("s.{}.link", p.to_uppercase()), &mk(2));
+        world::write(&dir, &format!("S.{p}.link"), &mk(3));
+        world::write(&dir, &format!("s.{p}.LINK"), &mk(4));
+        let mut mixed: Vec<char> = p.chars().collect();
+        if let Some(c) = mixed.iter_mut().find(|c| c.is_ascii_alphabetic()) {
+            *c = c.to_ascii_uppercase();
+        }
+        world::write(&dir, &format!("s.{}.link", mixed.into_iter().collect::<String>()), &mk(5));
+        out.push(Config { name: "xiv:look-alike-file-names-in-another-case".into(), layout: world::sign_layout(lay, &[owner]), owners: world::owner_map(&[owner]), dir, ambiguous: true });
+    }
     // (vi) more files than needed, some invalid: one valid link, one with a bad
     // signature, one signed by a key outside the key table, one doubly signed
     {
